@@ -1,8 +1,120 @@
-import BrushVerif.Model.Wire
-/-! Driver for C01 (stub until the property's model exists). -/
+import BrushVerif.Model.Checked
+import BrushVerif.Model.Arith
+/-! Driver for C01: the checked hot-spot models on one request line (same canonical answers as
+`harness/src/bin/c01.rs`): `OK …` | `ERR` | `PANIC` | `HANG`. -/
 namespace BrushVerif.Drv.C01
-open BrushVerif.Wire
+open BrushVerif.Wire BrushVerif.Checked
 
-def handle (_toks : List Str) : Str := "unimplemented".toList
+def showCk {α : Type} (f : α → Str) : Ck α → Str
+  | .ok v => f v
+  | .error .hang => "HANG".toList
+  | .error _ => "PANIC".toList
+
+def okFields (fs : List Str) : Str := "OK".toList ++ (fs.flatMap (fun f => ' ' :: esc f))
+
+def optLen (t : Str) : Option (Option Int) :=
+  if t = ['-'] then some none else (parseInt? t).map some
+
+def natStr (n : Nat) : Str := natToStr n
+
+def elems (pre : Char) (from_ n : Nat) : List Str := (List.range n).map (fun i => pre :: natStr (i + from_))
+
+def keysStr (ks : List Nat) : Str := joinWith [','] (ks.map natStr)
+
+def insertKey : List Nat → Nat → List Nat
+  | [], k => [k]
+  | x :: xs, k => if k < x then k :: x :: xs else if k = x then x :: xs else x :: insertKey xs k
+
+def binOp? (t : Str) : Option Arith.BinOp :=
+  match String.ofList t with
+  | "+" => some .add | "-" => some .sub | "*" => some .mul | "/" => some .div | "%25" => some .mod
+  | "**" => some .pow | "<<" => some .shl | ">>" => some .shr | "&" => some .band | "|" => some .bor
+  | "^" => some .bxor | "<" => some .lt | ">" => some .gt | "<=" => some .le | ">=" => some .ge
+  | "==" => some .eq | "!=" => some .ne | "&&" => some .land | "||" => some .lor | "," => some .comma
+  | _ => none
+
+def unOp? (t : Str) : Option Arith.UnOp :=
+  match String.ofList t with
+  | "+" => some .plus | "-" => some .minus | "~" => some .bnot | "!" => some .lnot
+  | _ => none
+
+def showRes : Arith.Res → Str
+  | .ok v => "OK ".toList ++ intToStr v.toInt
+  | .err _ => "ERR".toList
+
+def handle (toks : List Str) : Str :=
+  match toks with
+  | [op, s, o, l] =>
+    let ops := String.ofList op
+    if ops = "SUBSTR" then
+      match parseInt? o, optLen l with
+      | some off, some len => showCk (fun r => match r with | some r => "OK ".toList ++ esc r | none => "ERR".toList) (substring (unesc s) off len)
+      | _, _ => "BAD-REQUEST".toList
+    else if ops = "ASUBSTR" ∨ ops = "PSUBSTR" then
+      match parseNat? s, parseInt? o, optLen l with
+      | some n, some off, some len =>
+        let xs := if ops = "ASUBSTR" then elems 'e' 0 n else "sh0".toList :: elems 'p' 1 n
+        showCk (fun r => match r with | some r => okFields r | none => "ERR".toList) (subarray (ops = "PSUBSTR") xs off len)
+      | _, _, _ => "BAD-REQUEST".toList
+    else if ops = "INDEX" then
+      match parseNat? o, parseInt? l with
+      | some n, some idx =>
+        let keys := List.range n
+        showCk (fun k =>
+          match String.ofList s, k with
+          | "get", some k => "OK ".toList ++ esc (if k < n then 'e' :: natStr k else []) ++ " K=".toList ++ keysStr keys
+          | "get", none => "OK % K=".toList ++ keysStr keys
+          | "set", some k => "OK 0 K=".toList ++ keysStr (insertKey keys k)
+          | "set", none => "OK 1 K=".toList ++ keysStr keys
+          | "unset", some k => "OK 0 K=".toList ++ keysStr (keys.filter (· ≠ k))
+          | "unset", none => "OK 1 K=".toList ++ keysStr keys
+          | _, _ => "BAD-REQUEST".toList) (indexKey n idx)
+      | _, _ => "BAD-REQUEST".toList
+    else if ops = "ARITH" then
+      match binOp? s, parseInt? o, parseInt? l with
+      | some b, some x, some y => showRes (Arith.applyBin b (Int64.ofInt x) (Int64.ofInt y))
+      | _, _, _ => "BAD-REQUEST".toList
+    else "BAD-REQUEST".toList
+  | [op, a, b, c, d] =>
+    let ops := String.ofList op
+    -- BRACEN <sign+digits> <sign+digits> <sign+digits|->   /  BRACEC <char> <char> <sign+digits|->
+    let num (t : Str) : Ck Int :=
+      match t with
+      | '-' :: ds => braceNumber true ((parseNat? ds).getD 0)
+      | '+' :: ds => braceNumber false ((parseNat? ds).getD 0)
+      | ds => braceNumber false ((parseNat? ds).getD 0)
+    let incOf (t : Str) : Ck Int := if t = ['-'] then pure 1 else num t
+    let pre := unesc a
+    if ops = "BRACEN" then
+      showCk (fun ws => okFields (ws.map (fun w => pre ++ intToStr w)))
+        (do let s ← num b; let e ← num c; let i ← incOf d; numSeq s e i)
+    else if ops = "BRACEC" then
+      match b, c with
+      | [c1], [c2] =>
+        showCk (fun ws => okFields (ws.map (fun w => pre ++ [Char.ofNat w])))
+          (do let i ← incOf d; charSeq c1.toNat c2.toNat i)
+      | _, _ => "BAD-REQUEST".toList
+    else "BAD-REQUEST".toList
+  | [op, a, b] =>
+    let ops := String.ofList op
+    if ops = "HIST" then
+      match parseNat? a, optLen b with
+      | some n, some none =>
+        showCk (fun sk => "OK ".toList ++ natStr (n - sk) ++ [' '] ++ (if n - sk = 0 then ['-'] else natStr (sk + 1))) (histSkip n none)
+      | some n, some (some m) =>
+        if m < 0 ∨ m > (USIZE_MAX : Int) then "ERR".toList else
+        showCk (fun sk => "OK ".toList ++ natStr (n - sk) ++ [' '] ++ (if n - sk = 0 then ['-'] else natStr (sk + 1))) (histSkip n (some m.toNat))
+      | _, _ => "BAD-REQUEST".toList
+    else if ops = "LOOP" then
+      match parseInt? b with
+      | some n =>
+        showCk (fun (r : Str × Bool) => "OK ".toList ++ (if r.2 then ['2'] else ['-']) ++ [' '] ++ esc r.1) (nest3 (a = ['b']) n)
+      | none => "BAD-REQUEST".toList
+    else if ops = "UNARY" then
+      match unOp? a, parseInt? b with
+      | some u, some x => "OK ".toList ++ intToStr (Arith.applyUn u (Int64.ofInt x)).toInt
+      | _, _ => "BAD-REQUEST".toList
+    else "BAD-REQUEST".toList
+  | _ => "BAD-REQUEST".toList
 
 end BrushVerif.Drv.C01
